@@ -217,6 +217,37 @@ func LAY5(e *Env, ft *FormatTokens, scope func(fn *ssa.Function) bool) {
 				case *ssa.Return:
 					used = true
 					conds := CondsAt(u.Block())
+					// a helper: the format it looks at must be its parameter, and no caller may pin it to a constant
+					for _, c := range conds {
+						x, k, _, ok := c.EqConst()
+						if !ok || !IsNamedPly("Format")(x.Type()) {
+							continue
+						}
+						if sv, _ := ConstStr(k); sv != ft.Big {
+							continue
+						}
+						prm, isParam := StripConv(x).(*ssa.Parameter)
+						if !isParam {
+							continue
+						}
+						for _, caller := range e.All {
+							ssau.AllInstrs(caller, func(in ssa.Instruction) {
+								cl, ok := in.(*ssa.Call)
+								if !ok || cl.Common().StaticCallee() != fn {
+									return
+								}
+								for i, gp := range fn.Params {
+									if gp == prm && i < len(cl.Common().Args) {
+										if _, isConst := cl.Common().Args[i].(*ssa.Const); isConst {
+											e.Violate(caller, rule, e.Name(caller)+"/byte-order", cl.Pos(), "the byte-order helper "+fn.Name()+" is called with a constant format: the byte order no longer follows the format of the file being written / read")
+										} else if !e.IsCtl(caller) {
+											facts = append(facts, "called from "+e.Name(caller)+" with its format value")
+										}
+									}
+								}
+							})
+						}
+					}
 					if ok, _ := hasFormatLit(conds, ft.Big, true); !ok {
 						bad = "BigEndian is returned on a path not guarded by format == " + names[ft.Big]
 					} else {
